@@ -52,7 +52,38 @@ def run(ctx):
     ctx.ob("R11.10", "%s|guard-existence-test-is-lstat" % SS.key, E_kind == "nofollow", where=ctx.where(SS, E),
            detail="the guard tests the directory entry itself" if E_kind == "nofollow" else
            "the guard asks whether the *referent* exists (Path::exists / metadata follow symbolic links): a dangling symlink made by the user, with a matching .do rule, is replaced by the build output")
-    isdir = [(sw, t_t, f_t) for (sw, t_t, f_t, cbb) in ba.switches_on_call(r"std::path::Path::is_dir") if ba.edge_dominates((E, E_t), sw)]
+    dirtests = dir_test_functions(prog)
+    isdir_all = [(sw, t_t, f_t, cbb) for (sw, t_t, f_t, cbb) in ba.switches_on_call("|".join(re.escape(k) for k in sorted(dirtests))) if ba.edge_dominates((E, E_t), sw)]
+    # the same question written out in place: `stat(t).map_or(false, |m| m.is_dir())`
+    inline_kind = {}
+    for (sw, t_t, f_t, cbb) in ba.switches_on_call(r"core::result::Result::map_or|core::result::Result::is_ok_and|core::option::Option::map_or|core::option::Option::is_some_and"):
+        if not ba.edge_dominates((E, E_t), sw):
+            continue
+        tt = SS.blocks[cbb]["term"]
+        asks_dir = False
+        for a_ in tt["args"]:
+            la = op_local(a_)
+            for x in ([la] + list(ba.ref_chain(la))) if la is not None else []:
+                d_ = ba.single_def(x)
+                if d_ and d_[0] == "stmt" and d_[3]["k"] == "agg" and d_[3].get("def"):
+                    cb_ = prog.bodies.get(strip_generics(d_[3]["def"]))
+                    if cb_ is not None and BA.of(cb_).calls(r"std::fs::Metadata::is_dir|std::fs::FileType::is_dir"):
+                        asks_dir = True
+        if not asks_dir:
+            continue
+        sl_, org_, _ = backward_direct(SS, op_local(tt["args"][0]), depth=12)
+        stat = [o for o in org_ if o[0] == "call" and (call_matches(o[2], _FOLLOW) or call_matches(o[2], _NOFOLLOW))]
+        inline_kind[sw] = "nofollow" if stat and all(call_matches(o[2], _NOFOLLOW) for o in stat) else "follow"
+        isdir_all.append((sw, t_t, f_t, cbb))
+    isdir = [(sw, t_t, f_t) for (sw, t_t, f_t, cbb) in isdir_all]
+    # ---- R11.12 (F-AH): the directory exception of the guard is about the directory entry itself
+    ctx.rule("R11.12", "the guard excepts directories (a target may be a directory) by looking at the entry itself, not through it: a symbolic link to a directory that the user made is a file redo did not produce, and is left alone")
+    for (sw, t_t, f_t, cbb) in isdir_all:
+        kinds = {dirtests[q] for q in callee_paths(SS.blocks[cbb]["term"]) if q in dirtests} | ({inline_kind[sw]} if sw in inline_kind else set())
+        okd = kinds == {"nofollow"}
+        ctx.ob("R11.12", "%s|guard-directory-test-is-lstat" % SS.key, okd, where=ctx.where(SS, sw),
+               detail="the directory test does not follow symbolic links" if okd else
+               "the directory test follows symbolic links (Path::is_dir / metadata): a user's symlink to a directory, with a matching .do rule, is taken for a directory target and replaced by the build output")
     ovr = [(sw, t_t, f_t) for (sw, t_t, f_t) in common.field_switches(SS, "state::File.is_override") if ba.edge_dominates((E, E_t), sw) and ba.dominates(sw, z1[0]) is False or
            (ba.edge_dominates((E, E_t), sw) and any(ba.edge_dominates((d[0], d[2]), sw) for d in isdir))]
     gen = [(sw, t_t, f_t) for (sw, t_t, f_t, cbb) in ba.switches_on_call(r"state::File::is_generated") if any(ba.edge_dominates((o[0], o[2]), sw) for o in ovr)]
@@ -110,6 +141,14 @@ def run(ctx):
                        "on the is_override side of the leave-alone branch nothing clears the override flag before it is saved",
                        "on the is_override side a File method that clears is_override (set_changed via update_stamp, set_static, ...) is called: after a second manual edit the flag is lost and a later redo overwrites the user's file",
                        avoid=ba.calls(r"state::File::save"))
+    # ---- R11.13 (seed C11-9): ahead of the guard, too, nothing may clear the flag behind the override detection's back
+    ctx.rule("R11.13", "start_self, before the leave-alone guard: a File method that clears is_override (update_stamp -> set_changed, set_static, ...) is followed by set_override on every path to the guard - refreshing the stamp of an already overridden file after a second manual edit must not turn it back into redo's own output, which the guard then lets the .do overwrite")
+    so_ = ba.calls(r"state::File::set_override")
+    pre = [c for c in clear_calls if c not in so_ and ba.path([c], [E], incl=True) is not None]
+    ctx.ob("R11.13", "%s|no-flag-clearing-before-the-guard" % SS.key,
+           all(fa.path([c], [E], avoid=frozenset(so_), incl=True) is None for c in pre), where=ctx.where(SS, pre[0]) if pre else ctx.where(SS, E),
+           detail="nothing clears the override flag between the override detection and the guard" if not pre else
+           "%s is called ahead of the guard without set_override after it: the flag the guard is about to read is lost" % common.short(callee_paths(SS.blocks[pre[0]]["term"])[0]))
     # the three mutation anchors are dominated by the guard test
     ok = all(fa.dominates(E, x) for x in bad_targets) and bool(forks)
     ctx.ob("R11.1", "%s|build-steps-dominated-by-guard" % SS.key, ok, where=ctx.where(SS, E), detail="zap_deps1, find_do_file and the fork are all dominated by the guard")
@@ -261,6 +300,29 @@ def run(ctx):
 
 _FOLLOW = r"std::path::Path::(exists|is_file|metadata)|std::fs::metadata"
 _NOFOLLOW = r"std::path::Path::(symlink_metadata|is_symlink)|std::fs::symlink_metadata"
+
+
+def dir_test_functions(prog):
+    """{callee path: 'follow' | 'nofollow'}: the ways to ask 'is this path a directory': Path::is_dir (follows symbolic
+    links) and every local helper returning bool whose body asks Metadata::is_dir / FileType::is_dir of a stat result -
+    'nofollow' when every stat in it is an lstat (symlink_metadata / lstat), else 'follow'."""
+    out = {"std::path::Path::is_dir": "follow"}
+    for k, b in prog.bodies.items():
+        if not b.locals or b.locals[0] != "bool" or b.kind.lower() not in ("fn", "assocfn", "method"):
+            continue
+        ks = [k] + [c for c in prog.bodies if c.startswith(k + "::{closure")]
+        calls = []
+        for kk in ks:
+            bb_ = prog.bodies[kk]
+            calls += [callee_paths(bb_.blocks[i]["term"]) for i in BA.of(bb_).all_calls()]
+        flat = [q for ps in calls for q in ps]
+        if not any(re.fullmatch(r"std::fs::Metadata::is_dir|std::fs::FileType::is_dir|std::path::Path::is_dir", q) for q in flat):
+            continue
+        follow = any(re.fullmatch(_FOLLOW, q) or q == "std::path::Path::is_dir" for q in flat)
+        nofollow = any(re.fullmatch(_NOFOLLOW, q) for q in flat)
+        if follow or nofollow:
+            out[k] = "follow" if follow else "nofollow"
+    return out
 
 
 def existence_tests(B, t_taint):
